@@ -151,7 +151,7 @@ def limit_setter_sequences(h, n):
             p.non_negative = False
             nonneg = False
     if bounded and nonneg:
-        h.assume(lim[0] >= 0, "lower boundary >= 0 when non-negativity is also on")
+        h.assume(lim[1] > 0, "when boundaries and non-negativity are both in force they have a common interval (upper boundary > 0)")
     out = p.proposal()
     if bounded:
         h.ge("boundaries in force: >=lower", out, lim[0])
